@@ -99,6 +99,15 @@ CaseOutcome prop_execute(const std::string & case_json) {
     if (r.stats.queue_full_seen) oc.tags.push_back("queue_full");
     if (r.stats.time_jumps) oc.tags.push_back("time_jump");
     if (c.second_sig >= 0) oc.tags.push_back("two_producers");
+    {   // two flush calls (from different application threads) in progress at the same time
+        bool overlap = false;
+        for (size_t i = 0; i < r.subs.size(); ++i) for (size_t j = i + 1; j < r.subs.size(); ++j) {
+            const Submission & a = r.subs[i], & b = r.subs[j];
+            if (c.prog.ops[a.op_index].op != "flush" || c.prog.ops[b.op_index].op != "flush" || a.thread == b.thread) continue;
+            if (a.trace_pos_call < b.trace_pos_return && b.trace_pos_call < a.trace_pos_return) overlap = true;
+        }
+        if (overlap) oc.tags.push_back("concurrent_flushes");
+    }
     for (auto & s : r.subs) if (s.rc == JLS_ERROR_BUSY) { oc.tags.push_back("send_timed_out_or_dropped"); break; }
     oc.counters.push_back({"scheduling_steps", (long) r.stats.steps});
     oc.counters.push_back({"virtual_ms", (long) (r.trace.empty() ? 0 : r.trace.back().now_ms)});
